@@ -237,6 +237,216 @@ def boundary_sizes(ctx, ns):
                 driver=DRIVER, compare=lambda op, impl, model: None if impl == model else f"impl={impl!r} model={model!r}")
 
 
+# ------------------------------------------------------------------------------------------------
+# input-diversity pass: the FORM of `controls` / `target` / the host circuit
+# ------------------------------------------------------------------------------------------------
+#   form                                                     -> where generated (all in the quick tier)
+#   controls = list(range(n)), target = n (ascending, exact fit)   run(): check_n / operator_check / ties   (before this pass)
+#   controls a permuted, NON-ascending, non-contiguous subset of a larger host, target below / between / above them,
+#     as list / tuple / numpy int64 array / list of numpy ints / reversed range     diversity(): recorder cases, n = 1..10,
+#                                                                                   all 2^n control inputs, tied to `majority`
+#   real QuantumCircuit hosts with idle qubits: ints, Qubit objects (list / tuple), a whole QuantumRegister, a reversed
+#     register slice, hosts declared as (controls, target, idle), (target, idle, controls), (idle, controls, target)
+#                                                                                   diversity(): circuit cases, n = 1..5,
+#                                                                                   full Operator of the host (<= 8 qubits)
+#   operate called twice on the same host (= identity), the host's inverse, the host turned into a gate (`to_gate`) and
+#     appended to a permuted qubit list of a second host                           diversity(): composition cases
+#   sizes: n = 1 and n = 2 explicitly, odd / even n, n_controls of length 1, 2, 3+  (n = 1..10 above)
+# The observable is the property's: the target of the call is flipped iff at least ceil(n/2) of the LISTED controls are 1;
+# every other host qubit (idle ones included, whatever their value) is left alone.  The Lean model `majority controls target`
+# takes an arbitrary control list, so every recorder case is also tied (gate list in emission order).
+
+DIV_SEQ_FORMS = ("list", "tuple", "np-int64-array", "np-int-list", "reversed-range")
+DIV_CIRCUIT_FORMS = ("ints", "ints-tuple", "qubits", "qubits-tuple", "register", "register-reversed-slice")
+DIV_LAYOUTS = ("c-t-i", "t-i-c", "i-c-t")
+
+
+def _seq_form(form, idx):
+    if form == "list":
+        return list(idx)
+    if form == "tuple":
+        return tuple(idx)
+    if form == "np-int64-array":
+        return np.array(idx, dtype=np.int64)
+    if form == "np-int-list":
+        return [np.int64(i) for i in idx]
+    if form == "reversed-range":                      # only generated for idx = hi-1 .. lo
+        return range(idx[0], idx[-1] - 1, -1)
+    raise ValueError(form)
+
+
+def _want_perm(host, controls, target):
+    """dest[x] for every basis index x of the host (qiskit little-endian)."""
+    m = (len(controls) + 1) // 2
+    xs = np.arange(2 ** host, dtype=np.int64)
+    w = np.zeros_like(xs)
+    for c in controls:
+        w += (xs >> c) & 1
+    return np.where(w >= m, xs ^ (1 << target), xs)
+
+
+def diversity_recorder_case(ctx, case):
+    """`operate` on a duck-typed circuit with the controls in the given sequence form; exhaustive classical evaluation."""
+    from qclib.gates import majority
+    n, host, controls, target, form = case["n"], case["host"], case["controls"], case["target"], case["form"]
+    key = f"majority:diversity:recorder:{form}:n={n}:controls={'-'.join(map(str, controls))}:target={target}"
+    rep = dict(case, call="qclib.gates.majority.operate", diversity="recorder")
+    rec = Recorder()
+    try:
+        majority.operate(rec, _seq_form(form, controls), target if form != "np-int-list" else np.int64(target))
+    except Exception as e:
+        ctx.fail(key + ":raises", f"majority.operate(circuit, controls={form} {controls}, target={target}) raised "
+                                  f"{type(e).__name__}: {str(e)[:160]}", rep)
+        return
+    ctx.count("diversity:majority:controls " + form)
+    gates = rec.gates
+    ctx.tie({"op": "majority", "controls": list(controls), "target": target},
+            ["mcx " + " ".join(str(q) for q in cs + (t,)) + " ;" for cs, t in gates],
+            label=f"majority gate list ({form}) controls={controls} target={target}", driver=DRIVER)
+    stray = [g for g in gates if g[1] != target or not set(g[0]) <= set(controls) or len(set(g[0])) != len(g[0])]
+    if stray:
+        ctx.fail(key + ":wires", f"an emitted mcx {stray[0]} touches a qubit outside the listed controls {controls} / target "
+                                 f"{target}", dict(rep, gate=[list(stray[0][0]), stray[0][1]]))
+        return
+    # exhaustive over the 2^n values of the listed controls, other host qubits 0 and 1
+    xs = np.arange(2 ** n, dtype=np.int64)
+    placed = np.zeros_like(xs)
+    for j, c in enumerate(controls):
+        placed |= ((xs >> j) & 1) << c
+    flipped = eval_parity(gates, host, placed)
+    want = np.array([bin(int(x)).count("1") for x in xs]) >= (n + 1) // 2
+    bad = np.nonzero(flipped != want)[0]
+    if len(bad):
+        x = int(xs[bad[0]])
+        ctx.fail(key, f"controls {controls} ({form}) with values {format(x, f'0{n}b')[::-1]} (listed order): target "
+                      f"{'flipped' if flipped[bad[0]] else 'not flipped'}", dict(rep, input_bits=format(x, f"0{n}b")[::-1]))
+    else:
+        ctx.ok(key, nontrivial=n >= 3, sample={"majority_n": n, "form": form, "controls": list(controls), "target": target})
+
+
+def _build_host(case):
+    """(circuit, controls argument, target argument, control host indices, target host index) of a circuit case."""
+    from qiskit import QuantumCircuit, QuantumRegister
+    n, form = case["n"], case["form"]
+    if form.startswith("register"):
+        regs = {"c": QuantumRegister(n, "c"), "t": QuantumRegister(1, "t"), "i": QuantumRegister(case["idle"], "i")}
+        qc = QuantumCircuit(*[regs[r] for r in case["layout"].split("-")])
+        cidx = [qc.find_bit(q).index for q in regs["c"]]
+        tidx = qc.find_bit(regs["t"][0]).index
+        if form == "register":
+            return qc, regs["c"], regs["t"][0], cidx, tidx
+        return qc, regs["c"][::-1], regs["t"][0], cidx[::-1], tidx
+    qc = QuantumCircuit(case["host"])
+    cidx, tidx = list(case["controls"]), case["target"]
+    if form == "ints":
+        return qc, list(cidx), tidx, cidx, tidx
+    if form == "ints-tuple":
+        return qc, tuple(cidx), tidx, cidx, tidx
+    if form == "qubits":
+        return qc, [qc.qubits[i] for i in cidx], qc.qubits[tidx], cidx, tidx
+    if form == "qubits-tuple":
+        return qc, tuple(qc.qubits[i] for i in cidx), qc.qubits[tidx], cidx, tidx
+    raise ValueError(form)
+
+
+def diversity_circuit_case(ctx, case):
+    """`operate` on a real QuantumCircuit host; the whole host operator against the permutation."""
+    from qiskit import QuantumCircuit
+    from qiskit.quantum_info import Operator
+    from qclib.gates import majority
+    n, form, mode = case["n"], case["form"], case.get("mode", "once")
+    rep = dict(case, call="qclib.gates.majority.operate on QuantumCircuit", diversity="circuit")
+    tag = f"{form}:{case.get('layout') or 'flat'}:{mode}:n={n}"
+    try:
+        qc, cargs, targ, cidx, tidx = _build_host(case)
+        majority.operate(qc, cargs, targ)
+        if mode == "twice":
+            majority.operate(qc, cargs, targ)
+        elif mode == "inverse":
+            qc = qc.inverse()
+        elif mode == "to-gate":                                     # the host as a gate on a permuted list of a second host
+            perm = case["perm"]
+            outer = QuantumCircuit(len(perm) + 1)
+            outer.append(qc.to_gate(), perm)
+            cidx, tidx, qc = [perm[c] for c in cidx], perm[tidx], outer
+        op = Operator(qc).data
+    except Exception as e:
+        ctx.fail(f"majority:diversity:circuit:{tag}:raises", f"majority.operate on a {form} host ({mode}) raised "
+                                                            f"{type(e).__name__}: {str(e)[:160]}", rep)
+        return
+    ctx.count("diversity:majority:host " + form + ("" if mode == "once" else ":" + mode))
+    host = qc.num_qubits
+    dest = np.arange(2 ** host) if mode == "twice" else _want_perm(host, cidx, tidx)
+    ref = np.zeros((2 ** host, 2 ** host))
+    ref[dest, np.arange(2 ** host)] = 1
+    err = float(np.abs(op - ref).max())
+    key = f"majority:diversity:circuit:{tag}:controls={'-'.join(map(str, cidx))}:target={tidx}"
+    if err > 1e-9:
+        ctx.fail(key, f"|Operator(host) - (majority of controls {cidx} flips {tidx}, identity elsewhere)| = {err:.2e}",
+                 dict(rep, observed_err=err))
+    else:
+        ctx.ok(key, nontrivial=n >= 2, sample={"majority_n": n, "form": form, "mode": mode, "host": host})
+
+
+def diversity_gen(ctx):
+    r = ctx.rng
+    rec, circ = [], []
+    for n in (1, 2, 3, 4, 5, 6, 7, 9, 10):
+        host = n + 4
+        for form in DIV_SEQ_FORMS:
+            if form == "reversed-range":
+                lo = r.randrange(1, 4)
+                controls = list(range(lo + n - 1, lo - 1, -1))
+                target = r.choice([0, host - 1])
+            else:
+                while True:
+                    pick = r.sample(range(host), n + 1)
+                    controls, target = pick[:n], pick[n]
+                    if n < 2 or controls != sorted(controls):          # non-ascending whenever there is an order
+                        break
+            rec.append({"n": n, "host": host, "controls": controls, "target": target, "form": form})
+    # target below all / between / above all controls, controls descending (n = 3, 4)
+    for n, controls, target in ((3, [5, 3, 1], 0), (3, [6, 0, 4], 2), (4, [1, 5, 2, 0], 7), (2, [3, 1], 2), (1, [4], 1)):
+        rec.append({"n": n, "host": 8, "controls": controls, "target": target, "form": "list"})
+    for n in (1, 2, 3, 4, 5):
+        idle = 2 if n <= 4 else 1
+        host = n + 1 + idle
+        for form in DIV_CIRCUIT_FORMS:
+            if form.startswith("register"):
+                for layout in (DIV_LAYOUTS if n in (2, 3) else [r.choice(DIV_LAYOUTS)]):
+                    circ.append({"n": n, "idle": idle, "layout": layout, "form": form})
+            else:
+                while True:
+                    pick = r.sample(range(host), n + 1)
+                    if n < 2 or pick[:n] != sorted(pick[:n]):
+                        break
+                circ.append({"n": n, "host": host, "controls": pick[:n], "target": pick[n], "form": form})
+    for mode in ("twice", "inverse", "to-gate"):
+        for n, form in ((3, "qubits"), (4, "ints"), (2, "register-reversed-slice")):
+            c = {"n": n, "form": form, "mode": mode}
+            if form.startswith("register"):
+                c.update(idle=2, layout="t-i-c")
+                host = n + 3
+            else:
+                host = n + 3
+                pick = r.sample(range(host), n + 1)
+                c.update(host=host, controls=pick[:n], target=pick[n])
+            if mode == "to-gate":
+                perm = list(range(host + 1))
+                r.shuffle(perm)
+                c["perm"] = perm[:host]
+            circ.append(c)
+    return rec, circ
+
+
+def diversity(ctx):
+    rec, circ = diversity_gen(ctx)
+    for c in rec:
+        diversity_recorder_case(ctx, c)
+    for c in circ:
+        diversity_circuit_case(ctx, c)
+
+
 def run(ctx, nmax=None):
     fp = source_fingerprint()
     if fp != EXPECTED_FINGERPRINT:
@@ -274,6 +484,7 @@ def run(ctx, nmax=None):
     for n in range(1, 7 if ctx.quick else 9):
         operator_check(ctx, n)
     boundary_sizes(ctx, [24, 25, 31, 32, 33, 34, 47, 48, 63, 64, 65, 66] if ctx.quick else list(range(24, 131)))
+    diversity(ctx)
 
 
 def search(ctx, hints):
@@ -283,6 +494,10 @@ def search(ctx, hints):
 def replay(ctx, r):
     if "replay" in r and "n" not in r:
         r = r["replay"]
+    if r.get("diversity") == "recorder":
+        return diversity_recorder_case(ctx, r)
+    if r.get("diversity") == "circuit":
+        return diversity_circuit_case(ctx, r)
     n = int(r["n"])
     if r.get("sizes_only"):
         boundary_sizes(ctx, [n])
